@@ -464,6 +464,8 @@ package spg
 //@   ensures [C02] rejected:     err == nil ==> forall(int(b), trig(S[b]), 0 <= b && b < N[0] ==> !ok(S[b]) && S[b] == catTok(V[b], 0, r.Length) &&
 //@        forall(int(j), trig(V[b][idx(0, j)]), 0 <= j && j < r.Length ==> V[b][idx(0, j)].value == E[idx(0, oracle(C[b] + j, M[0]))]))
 //@   ensures [C13,C15] fresh:    err == nil ==> fresh(res)
+//@   ensures [C04] monotone:     ctr >= old(ctr) && pos >= old(pos)
+//@   loop 1 invariant [C04] mono:  ctr >= old(ctr) && pos >= old(pos)
 //@   loop 1 invariant [C13] att:   0 <= i && N[0] == i && C[i] == ctr && C[0] == old(ctr) &&
 //@        forall(int(b), int(b2), trig(C[b], C[b2]), 0 <= b && b < i && b2 == b+1 ==> C[b2] == C[b] + r.Length)
 //@   loop 1 invariant [C02] env:   E == arr(chars) && M[0] == len(chars) && off(chars) == 0
@@ -476,6 +478,32 @@ package spg
 //@   loop 1 ghost V[i-1] = arr(p.tokens)
 //@   loop 1 ghost E = arr(chars)
 //@   loop 1 ghost M[0] = len(chars)
+//@   loop 2 invariant [C04] mono:  ctr >= old(ctr) && pos >= old(pos)
 //@   loop 2 invariant [C03] fill:  0 <= i && i <= r.Length && ctr == C[shadowed(i)] + i &&
 //@        forall(int(j), trig(tokens[j]), 0 <= j && j < i ==> tokens[j].tType == AtomType && tokens[j].value == chars[oracle(C[shadowed(i)] + j, len(chars))] &&
 //@               0 <= oracle(C[shadowed(i)] + j, len(chars)) && oracle(C[shadowed(i)] + j, len(chars)) < len(chars))
+
+//@ func (CharRecipe).Alphabet
+//@   requires [C03] utf8:  utf8ok(r.AllowChars) && utf8ok(r.ExcludeChars) &&
+//@        forall(int(k), trig(r.RequireSets[k]), 0 <= k && k < len(r.RequireSets) ==> utf8ok(r.RequireSets[k]))
+//@   ghost G (Array Int Str)
+//@   ghost L
+//@   atreturn ghost G = arr(s)
+//@   atreturn ghost L[0] = len(s)
+//@   ensures [C03] joined: res == joinseg(G, 0, L[0])
+//@   ensures [C03] sorted: forall(int(i), int(j), trig(G[i], G[j]), 0 <= i && i < j && j < L[0] ==> strlt(G[i], G[j]))
+//@   ensures [C03] exact:  forall(str(c), (exists(int(k), 0 <= k && k < L[0] && G[k] == c)) == inA(r, arr(r.RequireSets), off(r.RequireSets), len(r.RequireSets), c))
+//@   ensures [C03] chars:  forall(int(k), trig(G[k]), 0 <= k && k < L[0] ==> clen(G[k]) == 1)
+
+//@ func sfWrap
+//@   requires [C03] utf8:  utf8ok(r.AllowChars) && utf8ok(r.ExcludeChars) &&
+//@        forall(int(k), trig(r.RequireSets[k]), 0 <= k && k < len(r.RequireSets) ==> utf8ok(r.RequireSets[k]))
+//@   requires [C13] A-RES: r.Length <= 4294967295
+//@   modifies pos, ctr, emitted
+//@   ensures [C16,C06] entropy: (res0 == "" && res1 == 0.0) ||
+//@        ((noReq(r, arr(r.RequireSets), off(r.RequireSets), len(r.RequireSets)) ==> res1 == real(r.Length) * log2(real(alphaSize(pub(r), arr(r.RequireSets), off(r.RequireSets), len(r.RequireSets))))) &&
+//@         (!noReq(r, arr(r.RequireSets), off(r.RequireSets), len(r.RequireSets)) ==> res1 == entropyReq(pub(r), arr(r.RequireSets), off(r.RequireSets), len(r.RequireSets))))
+//@   ensures [C04] monotone: ctr >= old(ctr) && pos >= old(pos)
+
+//@ func NewSFFunction
+//@   ensures [C16] closure: res != nil
